@@ -110,3 +110,25 @@ extern "C" void h_ReadTokenSeparator_terminates()
     ReadTokenSeparator(in, in_keep ? &keep : (std::string *)0);
     __CPROVER_assert(in._m_consumed <= in_len, "C05 the separator reader returns, having read no more than the input holds");
 }
+
+/* C05 / C03: the two recovery scanners of pass 1 return for every input and stream state, never read past the input, and stop where they
+ * promise: SkipInstance after the instance's `;` (SEVERITY_NULL exactly then), FindStartOfInstance in front of the next `#` */
+extern "C" void h_skip_find_terminate()
+{
+    IN_ARR(char, in_txt, 5); IN(unsigned, in_len); IN(int, in_state); IN(int, in_which);
+    __CPROVER_assume(in_len <= 5 && in_state >= 0 && in_state <= 7);
+#define REC_ALPHA(c) ((c) == '#' || (c) == ';' || (c) == '\'' || (c) == 'x' || (c) == ' ')
+    __CPROVER_assume(REC_ALPHA(in_txt[0]) && REC_ALPHA(in_txt[1]) && REC_ALPHA(in_txt[2]) && REC_ALPHA(in_txt[3]) && REC_ALPHA(in_txt[4]));
+    g_stream_arbitrary = 0; g_stream_script[0] = in_txt[0]; g_stream_script[1] = in_txt[1]; g_stream_script[2] = in_txt[2]; g_stream_script[3] = in_txt[3]; g_stream_script[4] = in_txt[4]; g_stream_len = in_len;
+    istream in; in._m_state = in_state; in._m_have = 0; in._m_consumed = 0;
+    std::string got;
+    if (in_which) {
+        Severity s = SkipInstance(in, got);
+        __CPROVER_assert(in._m_consumed <= in_len, "C05 the instance skipper returns without reading past the input");
+        if (s == SEVERITY_NULL) __CPROVER_assert(in._m_consumed >= 1 && in_txt[in._m_consumed - 1] == ';', "C03 the instance skipper reports success exactly when it stopped behind a `;`");
+    } else {
+        Severity s = FindStartOfInstance(in, got);
+        __CPROVER_assert(in._m_consumed <= in_len, "C05 the search for the next instance returns without reading past the input");
+        if (s == SEVERITY_NULL) __CPROVER_assert(in._m_consumed < in_len && in_txt[in._m_consumed] == '#', "C03 the search for the next instance reports success exactly when it stopped in front of a `#`");
+    }
+}
